@@ -24,6 +24,9 @@ type PropGroup struct {
 type Groups struct {
 	Properties map[string]*PropGroup `json:"properties"`
 	Global     []string              `json:"global_assumptions"`
+	// obligation name -> the one property it is checked under (a unit shared by several properties
+	// carries clauses of each; the other properties' checks leave the obligation to its owner)
+	Owner map[string]string `json:"obligation_owner"`
 }
 
 type knownFinding struct {
@@ -171,6 +174,10 @@ func cmdCheck(args []string) int {
 			}
 			if o.TimeS > slowest.TimeS {
 				slowest = o
+			}
+			if owner, has := groups.Owner[o.Name]; has && owner != *prop {
+				trusted["obligation "+o.Name+" is decided under property "+owner+", not here"] = true
+				continue
 			}
 			if kf := isKnown(o.Name); kf != nil {
 				if o.Status != "proved" {
